@@ -17,6 +17,7 @@ pub mod c14;
 pub mod c15;
 pub mod c16;
 pub mod c17;
+pub mod c18;
 pub mod c19;
 pub mod c20;
 pub mod e1common;
@@ -33,6 +34,7 @@ pub fn parent_main(prop: &str, tier: &str) -> i32 {
         "C15" => c15::parent(tier),
         "C05" => c05::parent(tier),
         "C17" => c17::parent(tier),
+        "C18" => c18::parent(tier),
         "C14" => c14::parent(tier),
         "C07" => c07::parent(tier),
         "C19" => c19::parent(tier),
@@ -79,6 +81,10 @@ pub fn worker_main(prop: &str, tier: &str, _slot: usize) {
         }
         "C14" => {
             let mut h = c14::handle_factory();
+            pool::worker_loop(|t, io| h(tier, t, io))
+        }
+        "C18" => {
+            let mut h = c18::handle_factory();
             pool::worker_loop(|t, io| h(tier, t, io))
         }
         "C17" => {
